@@ -280,6 +280,17 @@ class TestProtocolHash:
         assert len(h) == 64
         assert all(c in "0123456789abcdef" for c in h)
 
+    @pytest.mark.parametrize("sep", ["\x1e", "\x1f"])
+    def test_rejects_framing_separator_in_names(self, sep: str) -> None:
+        """Names containing a payload separator are rejected instead of hashed ambiguously."""
+        methods = rpc_methods(_TestProto)
+        b, _ = build_describe_batch("TestProto", methods, "srv-a")
+        with pytest.raises(ValueError, match="framing separator"):
+            compute_protocol_hash(f"A|{sep}x", b)
+        info = next(iter(methods.values()))
+        with pytest.raises(ValueError, match="framing separator"):
+            build_describe_batch("A", {f"x|{sep}y": info}, "srv-a")
+
 
 # ---------------------------------------------------------------------------
 # Unit tests: parse_describe_batch (round-trip)
